@@ -75,6 +75,10 @@ def run(ctx):
     ctx.attempt(r159, ctx, rep)
     rep.rule('R15.10', 'records written for a row carry every header field: no zip(fields, row) truncation of short rows')
     ctx.attempt(r1510, ctx, rep)
+    rep.rule('R15.12', 'a source hands out the stream it closes: no buffering wrapper of its own is put around a stream that open() closes underneath it (what the wrapper still holds would be lost)')
+    ctx.attempt(r1512, ctx, rep)
+    rep.rule('R15.13', 'a reader hands on every record as parsed: it does not edit the cells of the row it has read')
+    ctx.attempt(r1513, ctx, rep)
     rep.rule('R15.11', 'a writer opens its target on every path to a normal exit: writing a table without rows (or without a header) still creates / truncates the target')
     ctx.attempt(r1511, ctx, rep)
 
@@ -166,8 +170,19 @@ def _dialect_flow(ctx, mod, fn, start, depth=0):
     def calls_in(s):
         return [n for n in ast.walk(s) if isinstance(n, ast.Call)]
 
+    loc = {}     # locals that hold a dialect value
+
     def walk(stmts, d):
         for i, s in enumerate(stmts):
+            # x = kw.pop('dialect', default) / kw.get('dialect', default): the value moves into a local
+            if isinstance(s, ast.Assign) and len(s.targets) == 1 and isinstance(s.targets[0], ast.Name) and \
+                    isinstance(s.value, ast.Call) and norm(s.value.func) in ('%s.pop' % kw, '%s.get' % kw) and \
+                    s.value.args and is_key(s.value.args[0]):
+                dflt = norm(s.value.args[1]) if len(s.value.args) > 1 else 'None'
+                loc[s.targets[0].id] = d if d != 'ABSENT' else dflt
+                if norm(s.value.func).endswith('.pop'):
+                    d = 'ABSENT'
+                continue
             if isinstance(s, ast.If):
                 tv = test_value(s.test, d)
                 rest = stmts[i + 1:]
@@ -193,12 +208,16 @@ def _dialect_flow(ctx, mod, fn, start, depth=0):
                             d = norm(k.value)
                 elif any(k.arg is None and isinstance(k.value, ast.Name) and k.value.id == kw for k in c.keywords):
                     explicit = [k for k in c.keywords if k.arg == 'dialect']
+                    dd = d
+                    if explicit:
+                        ev = explicit[0].value
+                        dd = loc[ev.id] if isinstance(ev, ast.Name) and ev.id in loc else value_of(ev, d)
                     callee = norm(c.func)
                     g = mod.functions.get(callee) if isinstance(c.func, ast.Name) else None
                     if g is not None and g is not fn and g.kwarg:
-                        out.extend(_dialect_flow(ctx, mod, g, d, depth + 1))
+                        out.extend(_dialect_flow(ctx, mod, g, dd, depth + 1))
                     else:
-                        out.append((d, c))
+                        out.append((dd, c))
             if isinstance(s, ast.Assign) and len(s.targets) == 1 and isinstance(s.targets[0], ast.Subscript) and \
                     norm(s.targets[0].value) == kw and is_key(s.targets[0].slice):
                 d = value_of(s.value, d)
@@ -774,3 +793,79 @@ def r1511(ctx, rep):
             rep.held('R15.11', fn, 'open %s' % norm(first.items[0].context_expr), 'no return precedes the open', first)
     if n < 4:
         raise AnalysisError('anchor vanished: only %d writer functions that open a target' % n)
+
+
+# ----------------------------------------------------------------------- R15.12
+def r1512(ctx, rep):
+    """In the open() context managers of petl.io.sources: the object yielded is either the stream that the finally block
+    closes, or a proxy that owns nothing (Uncloseable around a stream that stays open).  A new wrapper object (a Call)
+    around a name that the finally block closes has a buffer of its own that nobody flushes: writers that do not flush
+    themselves (pickle) lose their tail."""
+    m = ctx.project.modules.get('petl.io.sources')
+    if m is None:
+        raise AnalysisError('anchor vanished: petl.io.sources')
+    n = 0
+    for cname, ci in sorted(m.classes.items()):
+        fn = ci.methods.get('open')
+        if fn is None or not fn.is_generator:
+            continue
+        closed = set()
+        for t in own_nodes(fn.node):
+            if isinstance(t, ast.Try):
+                for st in t.finalbody:
+                    for x in ast.walk(st):
+                        if isinstance(x, ast.Call) and isinstance(x.func, ast.Attribute) and x.func.attr == 'close' and \
+                                isinstance(x.func.value, ast.Name):
+                            closed.add(x.func.value.id)
+        for y in own_nodes(fn.node):
+            if not isinstance(y, ast.Yield) or y.value is None:
+                continue
+            n += 1
+            v = y.value
+            c = '%s.open: yield %s' % (cname, norm(v)[:50])
+            wraps = isinstance(v, ast.Call) and not (isinstance(v.func, ast.Attribute) and isinstance(v.func.value, ast.Name) and
+                                                     v.func.value.id in closed) and \
+                any(isinstance(a, ast.Name) and a.id in closed for a in list(v.args) + [k.value for k in v.keywords])
+            if wraps:
+                inner = [a.id for a in list(v.args) + [k.value for k in v.keywords] if isinstance(a, ast.Name) and a.id in closed][0]
+                rep.violated('R15.12', fn, c,
+                             'the caller gets `%s`, a new object around `%s`, while the finally block closes `%s` only: whatever '
+                             'the wrapper has buffered when the block is left never reaches the file (writers that do not flush '
+                             'themselves, such as topickle, lose rows)' % (norm(v)[:40], inner, inner), y)
+            else:
+                rep.held('R15.12', fn, c, 'the stream itself / a proxy that owns nothing', y)
+    if n < 8:
+        raise AnalysisError('anchor vanished: only %d yields in source open() methods' % n)
+
+
+# ----------------------------------------------------------------------- R15.13
+READER_ITERS = ('petl.io.csv_py3:CSVView.__iter__', 'petl.io.pickle:PickleView.__iter__', 'petl.io.text:TextView.__iter__',
+                'petl.io.json:iterjlines')
+
+
+def r1513(ctx, rep):
+    """What from*(to*(t)) returns is what the parser produced from the bytes written: a reader that assigns into the row
+    it got from the parser (strips, replaces, pops) changes cells that were written verbatim."""
+    n = 0
+    for fq in READER_ITERS:
+        fn = ctx.project.need_fn(fq)
+        targets = set()
+        for x in own_nodes(fn.node):
+            if isinstance(x, ast.For):
+                targets |= {y.id for y in ast.walk(x.target) if isinstance(y, ast.Name)}
+        bad = []
+        for x in own_nodes(fn.node):
+            if isinstance(x, ast.Subscript) and isinstance(x.ctx, (ast.Store, ast.Del)) and isinstance(x.value, ast.Name) and \
+                    x.value.id in targets:
+                bad.append(x)
+            elif isinstance(x, ast.Call) and isinstance(x.func, ast.Attribute) and isinstance(x.func.value, ast.Name) and \
+                    x.func.value.id in targets and x.func.attr in ('pop', 'insert', 'append', 'extend', 'remove', 'reverse', 'sort', 'clear'):
+                bad.append(x)
+        n += 1
+        for x in bad:
+            rep.violated('R15.13', fn, norm(x)[:50], 'the reader changes the record it has just parsed: the cell read back differs '
+                         'from the cell written (text that merely looks like a marker is data)', x)
+        if not bad:
+            rep.held('R15.13', fn, 'records handed on as parsed', '', fn.node)
+    if n < 3:
+        raise AnalysisError('anchor vanished: reader iterators')
